@@ -6,7 +6,7 @@
 export GOFLAGS=-mod=mod GOPROXY=off
 D=$1; PKG=$2; shift 2
 W=/tmp/repo-seed
-KNOWN_FAIL='TestWriteError|TestNonS3Endpoints|TestS3EndpointRedirect'
+KNOWN_FAIL="TestWriteError|TestNonS3Endpoints|TestS3EndpointRedirect${EXTRA_KNOWN_FAIL:+|$EXTRA_KNOWN_FAIL}"
 if [ ! -d $W ]; then git -C /repo worktree add -q $W HEAD; fi
 git -C $W checkout -q --detach 2>/dev/null; git -C $W reset -q --hard $(git -C /repo rev-parse HEAD); git -C $W clean -fdq
 cd $W
